@@ -25,6 +25,8 @@ from . import refquic as R
 EPS = 1e-6
 CLIENT_ADDR = ("1.2.3.4", 1234)
 CLIENT_ADDR2 = ("1.2.3.9", 999)
+CLIENT_ADDR3 = ("1.2.7.7", 777)
+CLIENT_ADDRS = [CLIENT_ADDR, CLIENT_ADDR2, CLIENT_ADDR3]
 SERVER_ADDR = ("2.3.4.5", 4433)
 
 
@@ -420,7 +422,10 @@ class Sim:
                 self.stats["op-skipped"] += 1
                 return
             if x == "c":
-                ep.addr = CLIENT_ADDR2 if ep.addr == CLIENT_ADDR else CLIENT_ADDR
+                to = op.get("to")
+                if to is not None and CLIENT_ADDRS[to] == ep.addr:
+                    to = (to + 1) % len(CLIENT_ADDRS)
+                ep.addr = CLIENT_ADDRS[to] if to is not None else (CLIENT_ADDR2 if ep.addr == CLIENT_ADDR else CLIENT_ADDR)
                 for m in self.monitors:
                     m.on_api(self, x, "rebind", {"addr": ep.addr})
                 self.stats["op:rebind"] += 1
